@@ -258,3 +258,20 @@ def row_shapes(config, decls, tier="quick"):
         if fmt != "excel":
             shapes.append(("empty", []))
     return [s for s in shapes if representable(fmt, decls, [s[1]])]
+
+
+def archive_still_readable(path):
+    """Independent judgement of a damaged zip container: can every member still be read completely (CRC checked)?
+    If so the fault did not damage anything a reader needs, and a reader that succeeds is not wrong."""
+    import zipfile
+
+    try:
+        with zipfile.ZipFile(path) as archive:
+            names = archive.namelist()
+            if not names:
+                return False
+            for name in names:
+                archive.read(name)
+        return True
+    except Exception:
+        return False
